@@ -95,6 +95,16 @@ def concat(it, parts):
     """parts: list of python str / SV str -> value"""
     if all(isinstance(p, str) for p in parts):
         return "".join(parts)
+    from .models_time import DateStr, YearPrefixed
+
+    if any(isinstance(p, DateStr) for p in parts):
+        if len(parts) == 3 and parts[1] == " " and isinstance(parts[2], DateStr):
+            year = it.ctx.ghost.get("int2str", {}).get(term(parts[0]).get_id()) if isinstance(parts[0], SV) else (int(parts[0]) if isinstance(parts[0], str) and parts[0].isdigit() else None)
+            if year is not None:
+                return YearPrefixed(year, parts[2])
+        if len(parts) == 1:
+            return parts[0]
+        raise Unsupported("concatenation with a formatted date")
     # merge adjacent literals
     merged = []
     for p in parts:
@@ -124,6 +134,7 @@ def to_str(it, v):
             digits = z3.Plus(z3.Range("0", "9"))
             it.ctx.assume(z3.InRe(r.t, z3.Union(digits, z3.Concat(z3.Re("-"), digits))))
             it.ctx.assume(z3.Length(r.t) > 0)
+            it.ctx.ghost.setdefault("int2str", {})[r.t.get_id()] = v
             return r
         if v.k == "bool":
             return SV("str", z3.If(v.t, z3.StringVal("True"), z3.StringVal("False")))
@@ -190,6 +201,13 @@ def int_bitop(it, op, a, b):
             return SV("int", ta * (2**b))
         if isinstance(op, ast.BitAnd) and b >= 0 and (b & (b + 1)) == 0:
             return SV("int", ta % (b + 1))
+    if isinstance(op, (ast.BitOr, ast.BitAnd, ast.BitXor)):
+        # value not modelled (only used where the contract does not speak about it): some non-negative integer for
+        # non-negative operands
+        tb = as_int(b)
+        r = fresh("int", "bits")
+        it.ctx.assume(z3.Implies(z3.And(ta >= 0, tb >= 0), r.t >= 0))
+        return r
     raise Unsupported("bit operation on symbolic ints")
 
 
@@ -596,7 +614,9 @@ def m_decode(it, s, args, kwargs):
 def m_join(it, sep, args):
     seq = args[0]
     if isinstance(seq, SymSeq):
-        raise Unsupported("join over symbolic-length sequence")
+        if seq.elem != kind_of(sep):
+            it.throw("TypeError", "sequence item: expected str instance")
+        return fresh(kind_of(sep), "joined")  # contents not modelled
     items = list(it.iterate(seq))
     if not isinstance(sep, SV) and not any(isinstance(x, SV) for x in items):
         if not all(isinstance(x, type(sep)) for x in items):
